@@ -244,7 +244,7 @@ func c16Run(t *testing.T, p *world.PKI, v checks.Variant, clientSide bool, pos i
 		if act == actStallDL {
 			// pos selects the variant: 0 = deadline set before the Write, 1 = deadline set while the Write is
 			// already parked in the transport, 2 = as 1 but the deadline is moved twice (later, then earlier).
-			if pos > 2 {
+			if pos > 3 {
 				o.Skip = true
 				pr.CloseAll()
 				return
@@ -272,9 +272,19 @@ func c16Run(t *testing.T, p *world.PKI, v checks.Variant, clientSide bool, pos i
 				_ = x.Conn.SetWriteDeadline(time.Now().Add(5 * time.Second))
 				w.Settle()
 				_ = x.Conn.SetWriteDeadline(time.Now().Add(50 * time.Millisecond))
+			case 3:
+				// the deadline expires and is re-armed (cleared) back to back, before whatever watches it has
+				// run: the blocked Write is either interrupted by the momentary expiry or stays blocked — and then
+				// it must still be interruptible by the next deadline (and by Close, checked at the end)
+				_ = x.Conn.SetWriteDeadline(time.Now().Add(-time.Second))
+				_ = x.Conn.SetWriteDeadline(time.Time{})
+				w.Settle()
+				if !wr.Done() {
+					_ = x.Conn.SetWriteDeadline(time.Now().Add(50 * time.Millisecond))
+				}
 			}
 			w.Settle()
-			if wr.Done() {
+			if wr.Done() && pos != 3 {
 				bad("the stalled Write returned before its deadline: %v", wr)
 			}
 			w.Sleep(51 * time.Millisecond)
